@@ -286,6 +286,38 @@ def twin_checks():
             bad.append(dict(case='one training batch per epoch has loss value +inf (finite gradient)', violated='the optimiser step is not on the gradient '
                             'accumulated over ALL training batches (the trajectories with and without the flag value differ)',
                             train_loss_with_flag=[float(v) for v in b.metrics_history['train_loss']]))
+        # trainable tensors that live OUTSIDE the networks (a learnable equation coefficient) and are handed to the optimiser: they are stepped
+        # on the accumulated gradient like every other parameter
+        kcoef = torch.nn.Parameter(torch.tensor(0.5))
+        torch.manual_seed(4)
+        nets_ = [FCNN(1, 1, hidden_units=(4,))]
+        sk = Solver1D(lambda u, t: [diff(u, t) + kcoef * u], [IVP(0., 1.)], t_min=0., t_max=1., nets=nets_, n_batches_train=2, n_batches_valid=1,
+                      optimizer=torch.optim.SGD(list(nets_[0].parameters()) + [kcoef], lr=0.05),
+                      train_generator=Generator1D(6, 0., 1., method='equally-spaced'), valid_generator=Generator1D(6, 0., 1., method='equally-spaced'))
+        sk.fit(2, tqdm_file=None)
+        if kcoef.grad is None or float(kcoef.detach()) == 0.5:
+            bad.append(dict(case='a learnable equation coefficient outside the networks, registered with the optimiser', violated='it receives no gradient / is never stepped',
+                            value_after_two_epochs=float(kcoef.detach()), has_gradient=kcoef.grad is not None))
+        # a user condition whose trailing coordinate has a default value: the spherical solver still hands it all three coordinates
+        from neurodiffeq.solvers import SolverSpherical
+        from neurodiffeq.conditions import BaseCondition
+        from neurodiffeq.generators import GeneratorSpherical
+        seen_args = []
+
+        class Cond(BaseCondition):
+            def enforce(self, net, r, theta, phi=None):
+                seen_args.append(phi is not None)
+                xs = [r, theta] + ([phi] if phi is not None else [theta * 0])
+                return net(torch.cat(xs, dim=1)) * (r - 0.1)
+        try:
+            ss_ = SolverSpherical(lambda u, r, th, ph: [diff(u, r) + u], [Cond()], r_min=0.1, r_max=1., nets=[FCNN(3, 1, hidden_units=(4,))],
+                                  train_generator=GeneratorSpherical(6, 0.1, 1.), valid_generator=GeneratorSpherical(6, 0.1, 1.), n_batches_valid=1)
+            ss_.fit(1, tqdm_file=None)
+            if not seen_args or not all(seen_args):
+                bad.append(dict(case='SolverSpherical with a user condition enforce(self, net, r, theta, phi=None)', violated='the condition was enforced without '
+                                'the third coordinate during training / validation', calls_with_phi=sum(seen_args), calls=len(seen_args)))
+        except Exception as e:
+            bad.append(dict(case='SolverSpherical with a user condition whose last coordinate has a default', error=f'{type(e).__name__}: {e}'))
         # frozen after some training
         for oname, opt in (('Adam', lambda ns: torch.optim.Adam([p for n in ns for p in n.parameters()], lr=0.01)),
                            ('SGD+momentum', lambda ns: torch.optim.SGD([p for n in ns for p in n.parameters()], lr=0.05, momentum=0.9))):
